@@ -152,6 +152,13 @@ def solve_text(args):
                     res['model'] = vals
                     break
     res['time'] = time.time() - t_start
+    if res['status'] == 'unknown' and os.environ.get('VERIF_KEEP_SMT'):
+        d = os.environ['VERIF_KEEP_SMT']
+        os.makedirs(d, exist_ok=True)
+        for si, ltxt in enumerate(list(light or ()) + [text]):
+            with open(os.path.join(d, '%s_s%d.smt2' % (re.sub(
+                    r'\W', '_', str(key))[:40], si)), 'w') as f:
+                f.write(ltxt)
     return res
 
 
@@ -279,6 +286,12 @@ def discharge(verifier, obligations, budget=10, jobs=None, workdir=None,
         ob.axioms = axioms
         text = to_smt2(fs + axioms)
         light = None
+        if 6000 < len(text) <= 40000:
+            # medium-sized: first without the plugin axioms over the terms
+            # the unfoldings introduce (usually enough, much smaller)
+            light = [to_smt2(fs + verifier.axioms_for(
+                fs, depth=ob_unfold(eng, ob), exclude=exclude,
+                plug_all=False))]
         if len(text) > 40000:
             # goal-directed slices of the path condition (fewer hypotheses:
             # an unsat of a slice is a proof of the obligation)
@@ -303,6 +316,11 @@ def discharge(verifier, obligations, budget=10, jobs=None, workdir=None,
             light.append(to_smt2(fs + af(fs, 0, False) + g1))
             light.append(to_smt2(sl + af(sl, d, False)))
             light.append(to_smt2(fs + af(fs, d, False)))
+            # the goal's own applications unfolded deeper (index-recursive
+            # base cases over short literal sequences need 3 steps)
+            light.append(to_smt2(fs + af(fs, 0, False) + af([neg], 3,
+                                                            False)))
+            light.append(to_smt2(fs + af(fs, 3, False)))
         names = set()
         for (kind, t) in ob.inputs.values():
             names.add(str(t))
